@@ -11,6 +11,7 @@
 import QlibcModel.HashTbl.WalkMap
 import QlibcModel.HashTbl.DecLemmas
 import QlibcModel.HashTbl.Args
+import QlibcModel.HashTbl.Alias
 import QlibcModel.Shapes.Hashtbl
 
 namespace Qlibc.Props.C05
@@ -134,6 +135,66 @@ theorem valid_args_are_ops (s : Tbl) (k v : Bytes) :
     (removeA s (some (k, h k))).1 = (remove s k (h k)).2 ∧ (removeA s (some (k, h k))).2.1 = (remove s k (h k)).1 := by
   refine ⟨rfl, ?_, rfl, rfl⟩
   cases hg : get s k (h k) <;> simp [getA, hg]
+
+/-- KEY EQUALITY IS (hash, strcmp) ON THE WHOLE NAME. `h` is arbitrary in every theorem above — it
+    may give two different names the same value, also a name and a proper extension of it — and the
+    ideal map is keyed by the whole byte string. Spelled out for the case the chain search has to get
+    right: putting the longer (or shorter) of two such names never touches what is stored under the
+    other one. (`isMatch` compares the stored hash and then the complete names.) -/
+theorem prefix_keys_are_distinct {s : Tbl} {m : AssocMap} (A : Abs h s m) (k sfx v : Bytes) (hs : sfx ≠ []) :
+    get (put s (k ++ sfx) (h (k ++ sfx)) v) k (h k) = get s k (h k) ∧
+    get (put s k (h k) v) (k ++ sfx) (h (k ++ sfx)) = get s (k ++ sfx) (h (k ++ sfx)) := by
+  have hne : ¬ (k = k ++ sfx) := by
+    intro h1
+    have := congrArg List.length h1
+    simp only [List.length_append] at this
+    have : sfx.length = 0 := by omega
+    exact hs (List.eq_nil_of_length_eq_zero this)
+  have h1 := (put_spec h A.inv (k ++ sfx) v).2.1 k
+  have h2 := (put_spec h A.inv k v).2.1 (k ++ sfx)
+  rw [if_neg hne] at h1
+  rw [if_neg (fun h3 => hne h3.symm)] at h2
+  exact ⟨h1, h2⟩
+
+/-- a put / putstr whose data argument points INTO the stored value of the same key (pointer from
+    get or getnext with newmem = false, plus an offset) stores the addressed bytes of the OLD value:
+    `qhashtbl_put` copies before it releases. `aliasValue` is `none` when the harness skips the call
+    (key absent, range outside the block, no terminator for putstr). -/
+theorem put_alias_stores_old_bytes {s : Tbl} {m : AssocMap} (A : Abs h s m) (k : Bytes) (str : Bool) (off len : Nat)
+    {v : Bytes} (hv : aliasValue s k (h k) str off len = some v) :
+    (∃ old, m.lookup k = some old ∧ off ≤ old.length ∧
+      v = if str then (old.drop off).takeWhile (· != 0) ++ [0] else (old.drop off).take len) ∧
+    putAlias s k (h k) str off len = some (put s k (h k) v) ∧ Abs h (put s k (h k) v) (m.insert k v) := by
+  refine ⟨?_, by simp [putAlias, hv], abs_put h A k v⟩
+  unfold aliasValue at hv
+  rw [A.look k] at hv
+  cases hl : m.lookup k with
+  | none => rw [hl] at hv; cases hv
+  | some old =>
+    rw [hl] at hv
+    simp only [] at hv
+    by_cases ho : off > old.length
+    · rw [if_pos ho] at hv; cases hv
+    · rw [if_neg ho] at hv
+      refine ⟨old, rfl, by omega, ?_⟩
+      cases str with
+      | true =>
+        simp only [if_true, subStr] at hv ⊢
+        split at hv
+        · exact (Option.some.inj hv).symm
+        · cases hv
+      | false =>
+        simp only [Bool.false_eq_true, if_false, subRange] at hv ⊢
+        split at hv
+        · exact (Option.some.inj hv).symm
+        · cases hv
+
+/-- debug() on an open stream never faults — also on empty values, for which `_q_textout` writes
+    nothing (it must not look at `data[size - 1]`) — and renders one line per stored entry -/
+theorem debug_total {s : Tbl} {m : AssocMap} (A : Abs h s m) (J : IdInv s) :
+    (∃ out, debugText s = .ok out) ∧ textout [] = [] ∧ debugLine [107] [] 0 = [107, 61, 32, 40, 48, 44, 32, 48, 48, 48, 48, 48, 48, 48, 48, 41, 10] := by
+  obtain ⟨cs, hw, _⟩ := walk_complete h A J
+  exact ⟨⟨cs.flatMap fun c => debugLine c.name c.data c.hash, by simp only [debugText, hw]⟩, rfl, rfl⟩
 
 /-- non-vacuity: a reachable two-key single-chain table satisfies the hypotheses -/
 example : ∃ s m, Abs (fun _ => 7) s m ∧ IdInv s ∧ m.length = 2 :=
